@@ -1907,4 +1907,88 @@ theorem roundtrip_seq {α β} (rd1 : Rd α) (wr1 : α → Stream) (rd2 : Rd β) 
     Rd.bind rd1 (fun a => Rd.bind rd2 (fun b => Rd.pure (a, b))) (wr1 x ++ wr2 y ++ rest) = .ok (x, y) rest := by
   simp [List.append_assoc, h1 (wr2 y ++ rest), h2 rest]
 
+/-! ### tests (evaluation on literals, labelled as such) and satisfiability of the hypotheses -/
+
+-- test: the scanners on the harness's corruption tokens
+example : scanN "abc".toList = none := by decide +kernel
+example : scanN "-1".toList = some (18446744073709551615, []) := by decide +kernel
+example : scanN "99999999999999999999".toList = none := by decide +kernel
+example : scanN "0.5".toList = some (0, ".5".toList) := by decide +kernel
+example : scanDQ "nan".toList = none := by decide +kernel
+example : scanDQ "1e999".toList = none := by decide +kernel
+example : scanDQ "1e".toList = none := by decide +kernel
+example : scanDQ "-1".toList = some (-1, []) := by decide +kernel
+example : scanDQ "0.5@".toList = some (1/2, ['@']) := by decide +kernel
+example : printDQ 17 third = "0.33333333333333331".toList := by decide +kernel
+example : printDQ 6 third = "0.333333".toList := by decide +kernel
+
+/-- test: a concrete dense model with a non-dyadic discount -/
+def mW : DModel Rat := ⟨third, [[[1/4, 3/4], [1, 0]]], [[1/2], [-3]]⟩
+
+/-- test: every hypothesis of `roundtrip_dmodel` holds for `mW` on the driver's instance at 17 digits, so the theorem
+    applies to it -/
+example : RoundTrips (rdDModel (ratIO (1/1000000)) 2 1) (wrDModel (ratIO (1/1000000)) ⟨17, 17, 17, 17, 17⟩) mW := by
+  refine roundtrip_dmodel _ _ 2 1 mW (by decide +kernel) (by unfold RT; decide +kernel) ?_ ?_
+  · unfold AllMat3 AllMat RT; decide +kernel
+  · unfold AllMat RT; decide +kernel
+
+-- test: valid objects of the other kinds exist (hypotheses `…ValidB = true` are satisfiable by non-trivial values)
+example : dexpValidB 2 1 (⟨3, [[[1, 2], [0, 0]]], [[3], [0]], [[third], [0]], [[1/2], [0]]⟩ : DExp Rat) = true := by decide +kernel
+example : smodelValidB (ratIO (1/1000000)) 2 1 ⟨1/2, [[⟨0, 0, 1/4⟩, ⟨0, 1, 3/4⟩, ⟨1, 1, 1⟩]], [⟨1, 0, -3⟩]⟩ = true := by decide +kernel
+example : mpolValidB (ratIO (1/1000000)) 2 2 [[1/4, 3/4], [third, 1 - third]] = true := by decide +kernel
+example : pdValidB (ratIO (1/1000000)) (dmodelValidB (ratIO (1/1000000)) 2 1) 2 1 2 (mW, [[[1/2, 1/2], [0, 1]]]) = true := by decide +kernel
+-- test: the sparse reader merges duplicate triplets and restores storage order
+example : fromTriplets (· + ·) [⟨1, 0, (1 : Rat)⟩, ⟨0, 1, 2⟩, ⟨1, 0, 3⟩] = [⟨0, 1, 2⟩, ⟨1, 0, 4⟩] := by decide +kernel
+
+/-! ### the writers emit clean tokens, so the byte-level theorems apply to what they write -/
+
+/-- the text of a double has no white space in it and is not empty (true of `printf("%.*g")`) -/
+def PrintClean (io : DblIO D) : Prop := ∀ p d, CleanTok (io.printD p d)
+
+theorem atTok_clean : CleanTok atTok := ⟨by simp [atTok], by intro c hc; simp [atTok] at hc; subst hc; decide⟩
+
+theorem wrMat_clean (io : DblIO D) (hp : PrintClean io) (p : Nat) (m : Mat D) : ∀ t ∈ wrMat io p m, CleanTok t := by
+  intro t ht
+  simp only [wrMat, wrVec, List.mem_flatMap, List.mem_map] at ht
+  obtain ⟨r, _, d, _, rfl⟩ := ht
+  exact hp p d
+
+theorem wrMat3_clean (io : DblIO D) (hp : PrintClean io) (p : Nat) (m : List (Mat D)) : ∀ t ∈ wrMat3 io p m, CleanTok t := by
+  intro t ht
+  simp only [wrMat3, List.mem_flatMap] at ht
+  obtain ⟨x, _, hx⟩ := ht
+  exact wrMat_clean io hp p x t hx
+
+theorem wrDModel_clean (io : DblIO D) (hp : PrintClean io) (pr : Prec) (m : DModel D) : ∀ t ∈ wrDModel io pr m, CleanTok t := by
+  intro t ht
+  simp only [wrDModel, List.mem_cons, List.mem_append] at ht
+  rcases ht with rfl | ht | ht
+  · exact hp _ _
+  · exact wrMat3_clean io hp _ _ t ht
+  · exact wrMat_clean io hp _ _ t ht
+
+theorem wrPPol_clean (io : DblIO D) (hp : PrintClean io) (pr : Prec) (vf : VF D) : ∀ t ∈ wrPPol io pr vf, CleanTok t := by
+  intro t ht
+  simp only [wrPPol, wrVList, wrEntry, List.mem_append, List.mem_flatMap, List.mem_map, List.mem_cons,
+    List.mem_nil_iff, or_false] at ht
+  rcases ht with ⟨l, _, ⟨e, _, h⟩ | rfl⟩ | rfl
+  · rcases h with ⟨d, _, rfl⟩ | rfl | ⟨o, _, rfl⟩
+    · exact hp _ _
+    · exact printN_clean _
+    · exact printN_clean _
+  · exact atTok_clean
+  · exact atTok_clean
+
+/-- **byte-level truncation**: cut the file of a written object anywhere between two tokens (inside or right after
+    a separator, any white-space layout): the load is rejected and the destination is left alone -/
+theorem truncated_bytes_rejected {α} (rd : Rd α) (wr : α → Stream) (hext : Ext rd) (x : α) (hrt : RoundTrips rd wr x)
+    (dest : α) (lead : List Char) (hlead : ∀ c ∈ lead, isWs c = true)
+    (l1 l2 : List (Tok × List Char)) (hl : ∀ p ∈ l1 ++ l2, CleanTok p.1 ∧ Sep p.2) (hx : (l1 ++ l2).map (·.1) = wr x)
+    (hcut : l2 ≠ []) :
+    (load rd dest (tokenize (lead ++ render l1))).sig ≠ none ∧ (load rd dest (tokenize (lead ++ render l1))).dest = dest := by
+  rw [tokenize_render lead hlead l1 (fun p hp => hl p (List.mem_append_left _ hp))]
+  refine truncated_load_rejected rd wr hext x hrt dest _ (l2.map (·.1)) (by rw [← hx, List.map_append]) ?_
+  intro h
+  exact hcut (List.map_eq_nil_iff.mp h)
+
 end AITB.Codec
